@@ -91,7 +91,8 @@ def main():
         dst = os.path.join(VERIF, "seeded", keep)
         os.makedirs(dst, exist_ok=True)
         for f in ("patch.diff", demo):
-            shutil.copy(os.path.join(src, f), dst)
+            if os.path.realpath(os.path.join(src, f)) != os.path.realpath(os.path.join(dst, f)):
+                shutil.copy(os.path.join(src, f), dst)
         meta = {}
         try:
             meta = json.load(open(src + "/meta.json"))
